@@ -121,6 +121,9 @@ def gen_with(rng, alphabet, invalid):
     # final sweep: every pool topic, everything, and the two root wildcards
     ops += [f"get :{t}" for t in sorted(set(pool))]
     ops += ["iter", "match :#", "match :+/#", "match :$s/#"]
+    if not invalid and rng.random() < 0.4:
+        # the same kind of lookup from several goroutines at once
+        ops.append("cmatch " + " ".join(":" + x for x in ["#", "+/#"] + [rand_filter(rng, pool, False) for _ in range(3)]))
     return ops
 
 EXOTIC = ["a", "ab", "", "$", "$s", "b", "$$"]
@@ -195,6 +198,20 @@ def predicate(ops, out):
                 missing = [x for x in want if x not in got]
                 dup = sorted(set(x for x in got if got.count(x) > 1))
                 return f"`{op}` returned {o}; missing {missing} surplus {extra} duplicated {dup}"
+        elif f[0] == "cmatch":
+            if o == "concurrent-lookups-differ":
+                return (f"`{op}`: the same lookups give other answers when they run at the same moment than when each runs alone "
+                        "(readers share the store's read lock; a lookup must not depend on what other lookups are doing)")
+            parts = o.split(" | ")
+            if len(parts) != len(f) - 1:
+                return f"`{op}` -> unparsable {o}"
+            for a, part in zip(f[1:], parts):
+                flt = a[1:]
+                got = parse_list(part)
+                if got is None:
+                    return f"`{op}` -> unparsable {part}"
+                if hash_only_last(flt) and got != sorted(f"{t}={g}" for t, g in kept.items() if mqtt_matches(flt, t)):
+                    return f"`{op}`: lookup {flt} returned {part}"
         elif f[0] == "iterstop":
             n = int(f[1])
             want = min(max(n, 1), len(kept))
